@@ -30,6 +30,11 @@ CHECK = os.path.join(core.VERIF, 'check.py')
 MUTANTS = [
     ('M01-options-not-thread-local', 'fst_options.py', 'class _ThreadOptions(threading.local):', 'class _ThreadOptions:',
      ['C20']),
+    ('M02-offset-does-not-flush-caches', 'fst_core.py', '            f._cache.clear()  # f._touch()\n',
+     '            pass\n', ['C02']),
+    ('M03-fail-keeps-modifying-registry-entry', 'fst_core.py',
+     '        else:\n            del _MODIFYING[root]\n\n\nclass _ParamsOffset', '        else:\n            pass\n\n\nclass _ParamsOffset',
+     ['C12']),
 ]
 
 
